@@ -260,3 +260,42 @@ META["assumptions"] += [
     "more.jthread.move_assign: the jthread assigned to is not joinable",
 ]
 STATIC = list(globals().get("STATIC", [])) + list(MORE_STATIC)
+
+
+# ---- this_thread::suspend (added by main after seeded change C13-6 was missed): interruption points before AND after the yield ----
+HLP_CPP = "libs/pika/threading_base/src/thread_helpers.cpp"
+UNITS.append(Unit("hlp.suspend", "suspend.c", enforce="suspend", lifts={"body": Lift(HLP_CPP,
+    r"thread_restart_state suspend\(\s*threads::detail::thread_schedule_state state, threads::detail::thread_id_type nextid,", rules=[
+        DropStmt(r"\bPIKA_UNUSED", None),
+        Sub(r"(?:threads::detail::)?thread_self& (\w+) = (?:threads::detail::)?get_self\(\);", r"struct coroutine_self *\1 = get_self();", 1),
+        Sub(r"(?:threads::detail::)?thread_id_ref_type (\w+) = (\w+)\.get_thread_id\(\);", r"struct td *\1 = coroutine_get_thread_id(\2);", 1),
+        Sub(r"\b(\w+)\.noref\(\)", r"\1", None),
+        Call(r"(?:threads::detail::)?interruption_point(?!\s*\(\s*id, ec\); if)", "{ interruption_point({0}, {1}); if (vx_exc) return RS_unknown; }", None, stmt=True),
+        Sub(r"\bif \(ec\)", "if (ec_failed(ec))", None),
+        Sub(r"(?:pika::)?(?:threads::detail::)?thread_restart_state::(\w+)", r"RS_\1", None),
+        Sub(r"(?:pika::)?(?:threads::detail::)?thread_restart_state (\w+) =", r"int \1 =", None),
+        Sub(r"get_thread_id_data\((\w+)\)->get_scheduler_base\(\)", r"td_get_scheduler_base(\1)", None),
+        Sub(r"\bauto\* (\w+) = td_get_scheduler_base", r"struct sched *\1 = td_get_scheduler_base", None),
+        Sub(r"\b(\w+)->schedule_thread\(std::move\((\w+)\), execution::thread_schedule_hint\(\)\);", r"sched_schedule_thread(\1, \2);", None),
+        Sub(r"\b(\w+)\.yield\(", r"coroutine_yield(\1, ", None),
+        Call(r"(?:threads::detail::)?thread_result_type", "result_make({0}, {1})", None),
+        Sub(r"(?:threads::detail::)?invalid_thread_id\b", "NULL", None),
+        Sub(r"std::move\((\w+)\)", r"\1", None),
+        Call(r"\bPIKA_THROWS_IF", "{ vx_throws_if({0}, ERR_YIELD_ABORTED); if (vx_exc) return RS_unknown; }", None, stmt=True),
+        Sub(r"if \(&ec != &throws\) ec = make_success_code\(\);", "if (ec != &vx_throws_obj) ec->value = 0;", None),
+    ])}, funcs=[HLP_CPP + ": pika::this_thread::suspend(state, nextid, description, ec)"], min_obligations=10,
+    doc="T: an interruption request pending on entry or arriving while the task is suspended ends the call by thread_interrupted "
+        "(interruption points before and after the yield); otherwise one hand-over, abort -> yield_aborted, anything else returned"))
+
+# the timed overload, this_thread::suspend(abs_time, ...): the C02 unit (same template, same contract) is run here as well
+_c02 = {}
+exec(compile(open("/verif/specs/C02/spec.py").read(), "/verif/specs/C02/spec.py", "exec"), _c02)
+for _u in _c02["UNITS"]:
+    if _u.name == "timed.suspend_until":
+        _u.name = "c02." + _u.name
+        _u.template = "../C02/" + _u.template
+        UNITS.append(_u)
+META["trusted_base"] = list(META.get("trusted_base", [])) + [
+    "specs/C13/suspend.c: coroutine_self::yield / interruption_point / scheduler_base::schedule_thread / PIKA_THROWS_IF as stubs; the "
+    "request flag of the running task as one ghost bool that another thread may set while the task is suspended",
+    "unit c02.timed.suspend_until is the C02 unit of the same name (specs/C02/timed_suspend.c) with its trusted base"]
